@@ -217,6 +217,18 @@ def flw23_filter_exactly_once(ctx):
                         m = re.search(r'filter::Filter::(\w+)', d[3].rhs or '')
                         if m:
                             ctors.add(m.group(1))
+                    elif d[2] == 'term' and d[3].func and 'Filter' in (F.local_type(base_local(d[3].dest)) or ''):
+                        # a helper that builds the filter (`filter_from_plan(plan) -> Result<Filter, _>`)
+                        for hb in P.resolve(d[3].func, F.crate):
+                            if hb.crate != 'locustdb' or hb.kind != 'fn':
+                                continue
+                            hb.parse()
+                            for hblk in hb.blocks.values():
+                                for hs in hblk.stmts:
+                                    if hs.kind == 'assign':
+                                        hm = re.search(r'filter::Filter::(\w+)', hs.rhs or '')
+                                        if hm:
+                                            ctors.add(hm.group(1))
                 if ctors <= {'None'}:
                     unf.append((b, t))
                 else:
